@@ -1327,6 +1327,11 @@ impl Zeroconf {
                 debug!("Unregistering service during shutdown: {}", &fullname);
 
                 for intf in self.my_intfs.values() {
+                    // Only withdraw what has been announced on this interface.
+                    if info.get_status(intf.index) != ServiceStatus::Announced {
+                        continue;
+                    }
+
                     if let Some(sock) = self.ipv4_sock.as_ref() {
                         self.unregister_service(info, intf, &sock.pktinfo);
                     }
@@ -3688,6 +3693,12 @@ impl Zeroconf {
                 let mut timers = Vec::new();
 
                 for (if_index, intf) in self.my_intfs.iter() {
+                    // Only withdraw what has been announced: a service that is still
+                    // probing on this interface never claimed its records there.
+                    if info.get_status(*if_index) != ServiceStatus::Announced {
+                        continue;
+                    }
+
                     if let Some(sock) = self.ipv4_sock.as_ref() {
                         let packet = self.unregister_service(&info, intf, &sock.pktinfo);
                         // repeat for one time just in case some peers miss the message
